@@ -9,8 +9,10 @@ lock scope, check, charge, unlock; undo of the charged prefix on refusal).  One 
   * concurrent instances (two calls in flight, one per-scope step at a time): exhaustive TLC only.
 spec/C03_MemGrid.tla: checkMemory's overflow-safe arithmetic evaluated by TLC on a value grid and
 compared with the real function.  spec/C03_Trace.tla: TLC validation of traces recorded from 4
-goroutines through the manager's own TraceReporter.  Three expected-violation instances re-derive the
-known findings on every run (TLC counterexample + the same history failing on the real code)."""
+goroutines through the manager's own TraceReporter.  Two expected-violation instances re-derive the
+still-open findings on every run (TLC counterexample + the same history failing on the real code); the
+instance "gcmem" and the overflow rows of the grid are regression instances for the two repaired ones
+(8b34800, 64fc8f8) and must hold."""
 import concurrent.futures as cf
 import json
 import os
@@ -33,8 +35,6 @@ tlc._unescape = _fast_unescape
 
 # family -> (invariants that hold, action properties that hold, invariant expected to be violated)
 FINDINGS = {
-    # DESIGN 9.4: GC collects a peer/protocol scope that holds only reserved memory
-    "gcmem": ("TypeOK Bounds", "", "Sum"),
     # DESIGN 9.5: allow-listed connections are not counted against the per-subnet cap
     "alsub": ("TypeOK Sum Bounds Reparent SubnetCode Zero", "AllOrNothing PrioBound", "SubnetStmt"),
     # DESIGN 9.6: a refused transferAllowedToStandard leaves the connection charged nowhere
@@ -56,7 +56,8 @@ MUST = {
                 ("setservice", "other")],
     "stream": [("openstream", "limit"), ("setprotocol", "limit"), ("setservice", "limit"), ("setservice", "nil")],
     "streammem": [("setprotocol", "limit"), ("reserve", "limit"), ("reserve", "closed")],
-    "gcmem": [("gc", None), ("reserve", "nil")],
+    # regression instance for the repaired GC (8b34800): GC offered in every state, spans on View scopes
+    "gcmem": [("gc", None), ("reserve", "nil"), ("reserve", "limit"), ("beginspan", "nil"), ("release", "nil")],
     "alsub": [("openconn", "nil"), ("openconn", "limit")],
     "xfer": [("setpeer", "limit"), ("setpeer", "nil")],
 }
@@ -65,13 +66,13 @@ MUST = {
 def tiers(ctx):
     if ctx.tier == "thorough":
         return {
-            "printed": ["memp", "span", "connq", "subnet", "allow", "connmem", "stream", "streammem"],
+            "printed": ["memp", "span", "connq", "subnet", "allow", "connmem", "stream", "streammem", "gcmem"],
             "exhaustive": [("mem", 3), ("conn", 3)],
             "concurrent": [("cconn", 2), ("cstream", 2), ("cmem", 4)],
             "traces": 150, "races": 300, "random": 3000,
         }
     return {
-        "printed": ["memp", "spanq", "connq", "subnetq", "allowq", "connmem", "streamq", "streammem"],
+        "printed": ["memp", "spanq", "connq", "subnetq", "allowq", "connmem", "streamq", "streammem", "gcmem"],
         "exhaustive": [],
         "concurrent": [("cconn", 1), ("cstream", 1), ("cmemq", 2)],
         "traces": 12, "races": 40, "random": 300,
@@ -250,8 +251,6 @@ def run(ctx):
         "callers never release more than they reserved through a handle (the generators enforce it)",
         "named-scope locks held across a direct reservation are not modelled (the concurrent instances explore more "
         "interleavings than the code allows, not fewer); scope GC is atomic in the model",
-        "scope GC is run only when no peer/protocol scope holds a bare View reservation, except in the instance that "
-        "re-derives that known finding",
         "the connection rate limiter is disabled (WithConnRateLimiters); no metrics; SetLimit is not exercised",
     ]}
 
@@ -317,7 +316,8 @@ MANIFEST = {
             "scope incl. allow-listed variants and per-peer sub-scopes read in-package, error classes, per-subnet open "
             "connections) or from TLC invariants over recorded reporter events that reproduce with the same seed. Model "
             "disagreement alone is an L2 divergence. Bounded instances; GC atomic; named-scope locks not modelled; "
-            "rate limiter off. Four known findings are re-derived on every run (known_findings.d/C03.json).",
+            "rate limiter off. The two open known findings are re-derived on every run; the two repaired ones "
+            "(GC forgetting reserved memory, unlimited-scope overflow) are regression instances (known_findings.d/C03.json).",
     "engines": [{"name": "C03_Rcmgr", "path": "spec/C03_Rcmgr.tla", "serves_properties": ["C03", "C04"],
                  "kind_free_text": "TLA+ spec + TLC exhaustive (sequential + concurrent) + full-transition replay + trace validation (C03_Trace.tla) + function grid (C03_MemGrid.tla)"}],
 }
